@@ -28,6 +28,10 @@ WITNESS = '4,50,1;a1 x x o1 p1'      # the schedule behind Refuted.w_trace
 def classify(st):
     """finding id for one starved request (state at the end of the fair drain)"""
     nothing = st.get('nconns', 0) + st.get('pending_conns', 0) == 0
+    if st.get('tick_armed') is False:
+        # on the pinned code a pending acquire() keeps the tick timer armed (Pool.TickProofs /
+        # C16_tick_chain_alive); every known finding starves WITH the ticks still firing
+        return 'unclassified: the tick chain stopped while acquire() calls are pending (no tick timer armed)'
     if st.get('tick_crashing') == '_drop_block':
         return 'C16-prune-suppressed-waiters-tick-crash'
     if st.get('tick_crashing'):
